@@ -377,6 +377,16 @@ LOCKSTEP_OK = False  # set by the caller once the LOCKSTEP obligations (C07) hav
 MUTATORS = ("::push", "::pop", "::clear", "::remove", "::retain", "::drain", "::truncate", "::extend", "::insert", "::append", "::split_off", "::swap_remove")
 
 
+def d_lensum(F, s):
+    """a.len() + b.len() for two vectors/slices/strings: each length is at most isize::MAX, the sum is below usize::MAX"""
+    n = s.node
+    if n.get("k") == "Binary" and n["op"] == "Add" and n.get("ty") == "usize":
+        l, r = peel(n["lhs"]), peel(n["rhs"])
+        if call_is(l, "::len") and call_is(r, "::len") and len(l["args"]) == 1 and len(r["args"]) == 1:
+            return ("D-LENSUM", "sum of two collection lengths (each <= isize::MAX) cannot overflow usize")
+    return None
+
+
 def d_len1(F, s):
     n = s.node
     if not (n.get("k") == "Call" and s.kind in ("unwrap", "expect")):
@@ -398,10 +408,22 @@ def d_len1(F, s):
             pt = strip_ref(e[1])
             if pt.get("k") == "Const" and re.fullmatch(r"[1-9]\d*(_usize)?", pt["v"]):
                 return ("D-LEN1", "first element taken in the arm for length %s" % pt["v"])
+    NEG = {"Ne": "Eq", "Eq": "Ne", "Lt": "Ge", "Ge": "Lt", "Gt": "Le", "Le": "Gt"}
     for e in ctx:
-        if e[0] != "if" or not e[2]:
+        if e[0] != "if":
             continue
-        for f in q.conj(e[1]):
+        if e[2]:
+            facts_ = q.conj(e[1])
+        else:
+            # a condition known to be false: usable when it is a single comparison (its negation) or a negated test
+            c0 = peel(e[1])
+            if c0.get("k") == "Binary" and c0["op"] in NEG:
+                facts_ = [dict(c0, op=NEG[c0["op"]])]
+            elif call_is(c0, "::is_empty"):
+                facts_ = [{"k": "Unary", "op": "Not", "arg": c0, "ty": "bool", "sp": c0.get("sp")}]
+            else:
+                continue
+        for f in facts_:
             f = peel(f)
             ok = False
             g = None
@@ -641,7 +663,7 @@ def d_fromu32(F, s):
     return None
 
 
-GENERIC_RULES = [d_counter, d_subguard, d_fullrange, d_slice, d_peek, d_isvar, d_len1, d_split, d_external, d_rebuild, d_fromu32]
+GENERIC_RULES = [d_lensum, d_counter, d_subguard, d_fullrange, d_slice, d_peek, d_isvar, d_len1, d_split, d_external, d_rebuild, d_fromu32]
 
 
 def discharge(F, s, extra_rules=()):
